@@ -191,7 +191,7 @@ def run(ctx):
     from rules import c05 as _c05, c18 as _c18
     from rules.lowering_sem import r01_3e_constructs
 
-    _c05.r05_4_construct_typing(ctx)  # well-typed constructs (anytype mixed with a concrete type included) are accepted (shared with C05)
+    _c05.r05_10_constructs_by_construction(ctx)  # well-typed constructs (anytype mixed with a concrete type included) are accepted, ill-typed ones refused with a PyTeal error (shared with C05)
     _c18.r18_5_pragma_ranges(ctx)
     from rules import c04 as _c04e
 
